@@ -445,7 +445,8 @@ def run(ctx):
     bound = 1 if ctx.quick else 2
     specs = [{
         "module": "checks.c13", "params": params, "bound": bound,
-        "opts": {"time_horizon": 25.0, "drain": 2.0, "max_points": 8000, "free_switch_cost": 1},
+        "opts": {"time_horizon": 25.0, "drain": 2.0, "max_points": 8000, "free_switch_cost": 1,
+                     "time_jump_cost": None if ctx.quick else 1},
         "budget": 2500 if ctx.quick else 25000,
     } for params in scenario_params(ctx.tier)]
     items = [("process", params) for params in process_params(ctx.tier)]
